@@ -255,6 +255,7 @@ pub fn clash_cases(first: usize) -> Vec<(String, Vec<(ItemPath, Module)>, usize)
         ("two-receivers", "pub type T { pub a: u32, }\nimpl T { #[address(0x1000)] pub fn g(&self, &mut self) -> u32; }"),
         ("vfunc-receiver-not-first", "pub type V { vftable { pub fn g(a: u32, &self) -> u32; }, }"),
         ("vfunc-without-receiver", "pub type V { vftable { pub fn g(a: u32) -> u32; }, }"),
+        ("enum-values-wider-than-32-bits", "pub enum E: i64 { A = -9223372036854775804, B = 5000000000, C, }\npub enum F: u64 { A = 0x100000000, B, }\n#[align(8)] pub type T { pub e: E, pub f: F, }"),
         ("type-named-like-module-segment", "pub type kclash { pub x: u64, }\npub type U { pub k: kclash, }"),
     ];
     let mut out = vec![];
